@@ -15,6 +15,8 @@ DRAW_MODULES = ("random", "secrets", "uuid", "time", "datetime")
 DRAW_FUNCS = ("id", "hash", "uuid4", "uuid1", "urandom", "choices", "choice", "randint", "shuffle", "sample",
               "getrandbits", "token_hex")
 ORDER_CALLS = ("list", "tuple", "str", "repr", "next", "iter", "enumerate", "zip", "map", "filter", "reversed")
+REPR_OBJECTS = ("self", "rule", "pipeline", "transformation", "processing_item", "item", "detection_item", "detection",
+                "condition", "cond", "backend", "collection")
 DICT_OF_SETS = {"target_fields", "field_mappings", "exclusions"}
 
 
@@ -138,6 +140,21 @@ def scan_repo(root):
                     s.add("draw", n, n)
                 s.generic_visit(n)
 
+            def visit_Raise(s, n):
+                # an object's whole representation interpolated into an exception message: f"...{self}...",
+                # str(self) / repr(self), "%s" % self, and the same for whole rule / pipeline / item objects
+                if n.exc is not None:
+                    for m in ast.walk(n.exc):
+                        e = None
+                        if isinstance(m, ast.FormattedValue) and isinstance(m.value, ast.Name):
+                            e = m.value
+                        elif isinstance(m, ast.Call) and isinstance(m.func, ast.Name) and m.func.id in ("str", "repr") \
+                                and len(m.args) == 1 and isinstance(m.args[0], ast.Name):
+                            e = m.args[0]
+                        if e is not None and e.id in REPR_OBJECTS:
+                            s.add("msgrepr", n, e)
+                s.generic_visit(n)
+
             def visit_FormattedValue(s, n):
                 if settyped(n.value, s.local[-1]):
                     s.add("fstring", n, n.value)
@@ -181,22 +198,26 @@ GUARDS = {
 }
 
 
+def _function_text(root, file, func):
+    tree = ast.parse(open(os.path.join(root, file), encoding="utf-8").read())
+    node = tree
+    for part in func.split("."):
+        node = next((n for n in ast.walk(node) if isinstance(n, (ast.ClassDef, ast.FunctionDef, ast.AsyncFunctionDef))
+                     and n.name == part and n is not node), None)
+        if node is None:
+            return ""
+    return ast.unparse(node)
+
+
 def check_guards(root):
-    """-> list of (site key, missing statement).  Every GUARDS statement must occur in the unparsed function."""
+    """-> list of (site key, missing statement).  A guard is a statement (ast.unparse form) of the site's own function,
+    or a triple (file, qualified name, statement) for a statement elsewhere."""
     missing = []
     for key, stmts in GUARDS.items():
-        file, func = key[0], key[1]
-        tree = ast.parse(open(os.path.join(root, file), encoding="utf-8").read())
-        node = tree
-        for part in func.split("."):
-            node = next((n for n in ast.walk(node) if isinstance(n, (ast.ClassDef, ast.FunctionDef, ast.AsyncFunctionDef))
-                         and n.name == part and n is not node), None)
-            if node is None:
-                break
-        text = ast.unparse(node) if node is not None else ""
         for st in stmts:
-            if st not in text:
-                missing.append((key, st))
+            file, func, text = (key[0], key[1], st) if isinstance(st, str) else st
+            if text not in _function_text(root, file, func):
+                missing.append((key, text if isinstance(st, str) else f"{file} {func}: {text}"))
     return missing
 _r("sigma/correlations.py", "SigmaCorrelationCondition.from_dict", "comp", "unknown_keys",
    "sorted: the generator over the set is the argument of sorted(), the join sees a sorted list (keys are "
@@ -243,6 +264,34 @@ _r("sigma/validation.py", "SigmaValidator.validate_rule", "for", "self.validator
    "not-a-set: list since the repair (order given by the caller, from_dict sorts the names)")
 _r("sigma/validation.py", "SigmaValidator.finalize", "comp", "self.validators",
    "not-a-set: list since the repair")
+
+
+# ---- object representations in exception messages ----------------------------------------------------------------
+_STR_T = ("sigma/processing/transformations/base.py", "Transformation.__str__", "if name == '_pipeline' and self._pipeline is not None:")
+_STR_TI = ("sigma/processing/transformations/base.py", "Transformation.__str__", "return repr(self.processing_item.identifier)")
+_STR_C = ("sigma/processing/conditions/base.py", "ProcessingCondition.__str__", "'...' if f.name == '_pipeline' and self._pipeline is not None else repr(getattr(self, f.name))")
+_WHY_T = ("invariant: the text of str(self) is part of an error record; ORDER-SENSITIVE if it contains the owning pipeline "
+          "(applied_ids, field_mappings and other tracking sets).  Invariant: Transformation.__str__ renders the processing item "
+          "as its identifier and elides the pipeline (repair); guard statements checked by the scan; process corpus "
+          "entries convert-type-*")
+_WHY_C = ("invariant: str(self) of a processing condition in an error record raised while matching (pipeline set): "
+          "ORDER-SENSITIVE if it contains the owning pipeline.  Invariant: ProcessingCondition.__str__ elides the pipeline "
+          "(repair); guard checked by the scan; process corpus entries cond-msg-*")
+for _f in ("ConvertTypeTransformation.apply_value",):
+    _r("sigma/processing/transformations/values.py", _f, "msgrepr", "self", _WHY_T)
+    GUARDS[("sigma/processing/transformations/values.py", _f, "msgrepr", "self")] = [_STR_T, _STR_TI]
+for _f in ("RuleAttributeCondition.__post_init__", "RuleAttributeCondition.match"):
+    _r("sigma/processing/conditions/rule.py", _f, "msgrepr", "self", _WHY_C)
+    GUARDS[("sigma/processing/conditions/rule.py", _f, "msgrepr", "self")] = [_STR_C]
+for _f in ("ProcessingStateConditionBase.match_state", "RuleProcessingStateCondition.match",
+           "FieldNameProcessingStateCondition.match_field_name", "DetectionItemProcessingStateCondition.match",
+           "FieldNameProcessingItemAppliedCondition.match_field_name"):
+    _r("sigma/processing/conditions/state.py", _f, "msgrepr", "self", _WHY_C)
+    GUARDS[("sigma/processing/conditions/state.py", _f, "msgrepr", "self")] = [_STR_C]
+_r("sigma/processing/pipeline.py", "ProcessingItemBase._check_conditions", "msgrepr", "condition",
+   "invariant: str(condition) in the type error of a processing item (raised in __post_init__, no pipeline yet); if the "
+   "object is a ProcessingCondition its __str__ elides the pipeline; other objects are the user's")
+GUARDS[("sigma/processing/pipeline.py", "ProcessingItemBase._check_conditions", "msgrepr", "condition")] = [_STR_C]
 
 
 if __name__ == "__main__":
